@@ -4,6 +4,8 @@ from ..prng import Rng
 from .. import core
 from .. import genv as G
 from .. import geninv as GI
+from .. import geninv2 as GI2
+from .inv_base import InvProp
 
 RAW = {
     "invalid": "a: [unclosed\n  - x: {",
@@ -102,6 +104,9 @@ def corpus_cases():
     return out
 
 
+_INV = InvProp()
+
+
 class C11(Prop):
     id = "C11"
     serial = True
@@ -148,6 +153,12 @@ class C11(Prop):
                     if e[0] == "common" and r.chance(1, 2):
                         e[1] = r.choice(["${t}", {"m": [["k", "${t}"]]}, ["${u}"], "${t:k}"])
             yield {"op": "params", "layers": layers}
+        # entries with a YAML extension that are neither files nor directories: never opened, nothing may block
+        for i in range(24 if tier == "quick" else 400):
+            r = Rng(seed, "C11:special", i)
+            c = GI.gen_inventory(r, n_classes=r.range(1, 4), n_nodes=r.range(1, 3), nested=r.chance(1, 2))
+            if GI2.special_files(r, c):
+                yield c
         N = 150 if tier == "quick" else 4000
         kinds = ["delete", "truncate", "garbage", "nonutf8", "chmod", "dir"]
         raws = list(RAW.items())
@@ -172,6 +183,8 @@ class C11(Prop):
             yield crash_case(files, faults=faults, tag=tag)
 
     def judge(self, req, impl, reply):
+        if req.get("op") == "inventory":
+            return _INV.judge(req, impl, reply)
         if req.get("op") == "params":
             if isinstance(impl, dict) and "crash" in impl:
                 return dict(agree=True, spec_ok=None, impl_oracle=False, concrete=True,
@@ -198,6 +211,8 @@ class C11(Prop):
         return True
 
     def tags(self, req, impl, reply):
+        if req.get("op") == "inventory":
+            return ["in:special-files", "out:" + ("hang" if isinstance(impl, dict) and "hang" in impl else "returned")]
         if req.get("op") == "params":
             k = core.norm_result((impl or {}).get("rendered"), True) if isinstance(impl, dict) else ("?",)
             return ["in:refgraph", "out:" + ("error:" + k[1][0] if k[0] == "err" else k[0])]
